@@ -3253,6 +3253,12 @@ static int expand_define () {
                 }
               if (c == ',' && !parcnt && !dquote && !squote)
                 {
+                  if (n >= NARGS - 1)
+                    {
+                      /* more arguments than any macro can have: args[] holds NARGS */
+                      lexerror ("Too many macro arguments");
+                      return 0;
+                    }
                   *q++ = 0;
                   args[++n] = q;
                 }
